@@ -743,6 +743,11 @@ class Ev:
             return mod.name
         if name == "__file__" and mod is not None:
             return f"<package>/{mod.rel}"
+        if mod is not None and not getattr(mod, "star_imports", None):
+            # no binding in any enclosing scope, the module or the builtins (and no star import that could supply it): NameError
+            e = RaisedV("NameError", f"{mod.rel}:{getattr(node, 'lineno', 0)}")
+            e.reason = f"name {name!r} is not bound in any scope: " + e.reason
+            raise e
         raise self.err(f"unbound name {name}", node, mod)
 
     # ------------------------------------------------------------ expressions
@@ -1262,7 +1267,8 @@ class Ev:
                 try:
                     return base.items[int(idx)]
                 except IndexError:
-                    raise self.err("constant index out of range", n, mod)
+                    # a constant index beyond the end of a tuple/list the code itself built: IndexError at run time
+                    raise RaisedV("IndexError", f"{mod.rel}:{getattr(n, 'lineno', 0)}" if mod else "")
             if isinstance(idx, SliceV):
                 lo, hi, st = (int(x) if x is not None else None for x in (idx.lo, idx.hi, idx.step))
                 return Tup(base.items[lo:hi:st], base.kind)
@@ -3402,6 +3408,27 @@ def _elementwise(fn):
             return out
         return fn(as_sym(x))
     return f
+
+
+# more elementwise functions with exact sympy counterparts (a swapped one shows up as a different normal form)
+LIB.setdefault("numpy.log10", _elementwise(lambda x: sp.log(x) / sp.log(10)))
+LIB.setdefault("numpy.log2", _elementwise(lambda x: sp.log(x) / sp.log(2)))
+LIB.setdefault("numpy.log1p", _elementwise(lambda x: sp.log(1 + x)))
+LIB.setdefault("math.log10", _elementwise(lambda x: sp.log(x) / sp.log(10)))
+LIB.setdefault("math.log2", _elementwise(lambda x: sp.log(x) / sp.log(2)))
+LIB.setdefault("numpy.floor", _elementwise(sp.floor))
+LIB.setdefault("numpy.ceil", _elementwise(sp.ceiling))
+LIB.setdefault("math.floor", _elementwise(sp.floor))
+LIB.setdefault("math.ceil", _elementwise(sp.ceiling))
+LIB.setdefault("numpy.sin", _elementwise(sp.sin))
+LIB.setdefault("numpy.cos", _elementwise(sp.cos))
+LIB.setdefault("numpy.tan", _elementwise(sp.tan))
+LIB.setdefault("numpy.sinh", _elementwise(sp.sinh))
+LIB.setdefault("numpy.cosh", _elementwise(sp.cosh))
+LIB.setdefault("numpy.tanh", _elementwise(sp.tanh))
+LIB.setdefault("numpy.cbrt", _elementwise(lambda x: x ** sp.Rational(1, 3)))
+LIB.setdefault("numpy.sign", _elementwise(sp.sign))
+
 
 
 def _float_dtype(v):
